@@ -168,7 +168,8 @@ if m != 0: return ""
 
 
 def harnesses(tier):
-    out = []
+    import gen_C12_extra
+    out = gen_C12_extra.harnesses(tier) + []
     leaves = [l for l in LEAF if l != "Count"]
     for l in ("Sum", "Average", "Deviate", "Minimize", "Maximize"):
         out.append(failing_special(l))
